@@ -544,6 +544,37 @@ fn cmd_validate() -> (u64, Vec<String>) {
     (n, bad)
 }
 
+// ------------------------------------------------------------------------------------------------ markdown probes (C06 observations)
+fn cmd_markdown() -> (u64, Vec<String>) {
+    use scrut::parsers::markdown::{MarkdownParser, DEFAULT_MARKDOWN_LANGUAGES};
+    use scrut::parsers::parser::Parser;
+    let docs: Vec<(&str, String, usize)> = vec![
+        ("empty scrut block", "# t\n\n```scrut\n```\n".to_string(), 0),
+        ("multi-byte info string with config", "```日{a: 1}\nx\n```\n\n```scrut\n$ echo a\na\n```\n".to_string(), 1),
+        ("line starting with two backticks", "``inline`` code at line start\n\n```scrut\n$ echo a\na\n```\n".to_string(), 1),
+        ("unterminated front-matter (known finding C06.iter.none-consumes-nothing)", "---\nfoo\n\n```scrut\n$ echo a\na\n```\n".to_string(), 1),
+        ("plain", "# t\n\n```scrut\n$ echo a\na\n```\n".to_string(), 1),
+    ];
+    let mut n = 0;
+    let mut bad = vec![];
+    std::panic::set_hook(Box::new(|_| {}));
+    for (name, doc, want) in docs {
+        n += 1;
+        let maker = std::sync::Arc::new(ExpectationMaker::new(RuleRegistry::default()));
+        let r = std::panic::catch_unwind(std::panic::AssertUnwindSafe(|| MarkdownParser::new(maker, DEFAULT_MARKDOWN_LANGUAGES, None).parse(&doc)));
+        match r {
+            Err(_) => bad.push(format!("{{\"why\":\"C06: parse panics\",\"doc\":{},\"name\":{}}}", jstr(&doc), jstr(name))),
+            Ok(Err(_)) => {}
+            Ok(Ok((_, tcs))) => {
+                if tcs.len() != want {
+                    bad.push(format!("{{\"why\":\"C06: {} test cases, expected {}\",\"doc\":{},\"name\":{}}}", tcs.len(), want, jstr(&doc), jstr(name)));
+                }
+            }
+        }
+    }
+    (n, bad)
+}
+
 fn main() {
     let args: Vec<String> = std::env::args().collect();
     let cmd = args.get(1).map(|s| s.as_str()).unwrap_or("");
@@ -568,6 +599,7 @@ fn main() {
         ),
         "escape" => cmd_escape(args.get(2).map(|s| s.as_str()).unwrap_or("both"), args.get(3).and_then(|s| s.parse().ok()).unwrap_or(3)),
         "config" => cmd_config(),
+        "markdown" => cmd_markdown(),
         "validate" => cmd_validate(),
         _ => {
             eprintln!("usage: verif-replay axioms|diff|escape|config|validate");
